@@ -1421,6 +1421,8 @@ class FileSet:
             )
         elif isinstance(bundle_size, str):
             files = list(file_iterator)
+            if not files:
+                return
 
             # We want to split the files into hourly (or daily, etc.) bundles.
             # pandas provides a practical grouping function.
